@@ -13,8 +13,9 @@ from .. import refmodel as M
 ID = "C08"
 LEVEL = "exploration"
 TECHNIQUE = "runtime monitoring: exact-rational reference oracle on observed get_phasePlotRegion() over an exhaustive composition space"
-RULE = ("every triple (n+, n-, N) with N <= Nmax (quick 60, thorough 140) plus boundary rows N in {200, 400, 1000} "
-        "restricted to |FCR or NCPR - threshold| small, each realised as a sequence with a random arrangement and "
+RULE = ("every triple (n+, n-, N) with N <= Nmax (quick 60, thorough 140) plus, for every larger N up to 260 (400) and "
+        "every multiple of 20 up to 1000 (2000), the compositions on or next to a threshold (FCR within one residue of "
+        "1/4 and 7/20, |NCPR| within one residue of 7/20), each realised as a sequence with a random arrangement and "
         "spelling; every 5th triple additionally as 2 more arrangements; distinct = distinct triple; non-trivial = all")
 EXHAUSTIVE = {"quick": True, "thorough": True}
 EXHAUSTIVE_NOTE = {"quick": "all (n+, n-, N) with N <= 60 (39,710 triples)", "thorough": "all (n+, n-, N) with N <= 140"}
@@ -46,15 +47,25 @@ def cases(tier, seed):
         for a in range(N + 1):
             for b in range(N - a + 1):
                 yield {"c": [a, b, N]}
-    for N in (200, 400, 1000):
-        for a in range(N + 1):
-            for b in range(N - a + 1):
-                fcr = Fraction(a + b, N)
-                ncpr = abs(Fraction(a - b, N))
-                if min(abs(fcr - Q), abs(fcr - T), abs(ncpr - T)) <= Fraction(1, N) and (a + b) % 7 in (0, 1):
-                    if N == 1000 and (a % 9):
-                        continue
-                    yield {"c": [a, b, N]}
+    # larger N: only the compositions on or next to a threshold (that is where rounding / inexact thresholds bite)
+    big = list(range(NMAX[tier] + 1, 401)) + list(range(420, 2001, 20)) if tier == "thorough" else \
+        list(range(NMAX[tier] + 1, 260)) + list(range(260, 1001, 20)) + [1300, 1320, 2000]
+    for N in big:
+        seen = set()
+        for t in (Q, T):
+            c0 = int(t * N)
+            for tot in (c0 - 1, c0, c0 + 1):                 # FCR next to 1/4 and 7/20
+                if 0 <= tot <= N:
+                    for a in sorted({0, tot, tot // 2, (tot * 7) // 10, tot // 5}):
+                        seen.add((a, tot - a))
+        d0 = int(T * N)
+        for diff in (d0 - 1, d0, d0 + 1):                    # |NCPR| next to 7/20, FCR above 7/20
+            for minor in (0, 1, (N - diff) // 4, (N - diff) // 2):
+                if diff >= 0 and minor >= 0 and diff + 2 * minor <= N:
+                    seen.add((diff + minor, minor))
+                    seen.add((minor, diff + minor))
+        for a, b in sorted(seen):
+            yield {"c": [a, b, N]}
 
 
 def realise(rng, a, b, N):
